@@ -962,14 +962,26 @@ def c20_table():
             orig, stray = k + "0", k + "1"
             for state in STATES[k]:
                 for cp in ("rcopy", "rmemcpy"):
-                    for co_state in (["empty", "owning"] if len(kinds) == 2 else [None]):
+                    co_states = ["empty", "owning"] if len(kinds) == 2 else [None]
+                    if len(kinds) == 2 and k in "swa" and state in ("owning", "shared"):
+                        co_states.append("same")    # the co-argument refers to the SAME allocation as the original
+                    for co_state in co_states:
                         sc = list(_setup(k, state, orig, None))
                         args = [None] * len(kinds)
                         args[pos] = stray
                         if len(kinds) == 2:
                             ck = kinds[1 - pos]
                             co = ck + "2"
-                            sc += _setup(ck, co_state, co, None)
+                            if co_state == "same":
+                                owner = orig if k == "s" else "s9"
+                                if k == "a":
+                                    sc += ["aslice %s 0 1 %s" % (orig, co)]
+                                elif ck == "s":
+                                    sc += ["sshare %s %s" % (owner, co)]
+                                else:
+                                    sc += ["wfrom %s %s" % (co, owner)]
+                            else:
+                                sc += _setup(ck, co_state, co, None)
                             args[1 - pos] = co
                         sc.append("%s %s %s" % (cp, stray, orig))
                         sc += _after_copy(k, state, orig)
